@@ -1099,6 +1099,7 @@ func (cs *c08Case) checkEmitted(o *c08Open, res *c08Result, modes map[bgp.Family
 				return
 			}
 			withID := modes[p.f]&c08APSend != 0
+			localPart := false // the part carries one of the local routes with the known AS_PATH
 			if p.f == c08V4 || p.f == c08V6 {
 				maxBits := 32
 				if p.f == c08V6 {
@@ -1109,10 +1110,18 @@ func (cs *c08Case) checkEmitted(o *c08Open, res *c08Result, modes map[bgp.Family
 				for _, it := range items {
 					k := fmt.Sprintf("%d/%s", it.Bits, it.Addr)
 					switch {
-					case p.f == c08V4 && k == "24/0a0800", p.f == c08V4 && k == "24/0a0700", p.f == c08V6 && k == "48/20010db80008":
+					case p.f == c08V4 && k == "24/0a0800", p.f == c08V6 && k == "48/20010db80008":
+						seen[p.f]++
+						localPart = true
+					case p.f == c08V4 && k == "24/0a0700":
 						seen[p.f]++
 					case p.f == c08V4 && it.Bits == 32 && strings.HasPrefix(it.Addr, "0ac8") && cs.bulk:
 						bulkSeen[it.Addr] = true
+						localPart = true
+					case p.f == c08V4 && (k == "24/0a6300" || k == "24/0a6100" || k == "24/0a6101"),
+						p.f == c08V6 && (k == "48/20010db80099" || k == "48/20010db80097" || k == "48/20010db80098"):
+						// a probe of an earlier session, retained as stale (graceful restart) and
+						// advertised or withdrawn now: framing is judged, content is not ours
 					default:
 						bad = true
 					}
@@ -1127,11 +1136,18 @@ func (cs *c08Case) checkEmitted(o *c08Open, res *c08Result, modes map[bgp.Family
 				}
 			} else {
 				x := cs.local[p.f].X
-				ok := false
-				if withID {
-					ok = len(p.nlri) == 4+len(x) && string(p.nlri[4:]) == string(x)
-				} else {
-					ok = string(p.nlri) == string(x)
+				match := func(x []byte) bool {
+					if withID {
+						return len(p.nlri) == 4+len(x) && string(p.nlri[4:]) == string(x)
+					}
+					return string(p.nlri) == string(x)
+				}
+				ok := match(x)
+				if ok {
+					localPart = true
+				} else if match(cs.probe[p.f].X) {
+					ok = true // stale probe of an earlier session, see above
+					seen[p.f]--
 				}
 				if !ok {
 					key := "c08:addpath:path-id-emitted-without-negotiation"
@@ -1157,8 +1173,8 @@ func (cs *c08Case) checkEmitted(o *c08Open, res *c08Result, modes map[bgp.Family
 				cs.viol(o, "c08:emit:no-as-path", fmt.Sprintf("UPDATE without AS_PATH: %x", c08Trunc(m.Raw)), nil)
 				return
 			}
-			if p.f == c08V4 && !c08IsLocalRouteUpdate(u) {
-				continue // the oversize local route has no AS_PATH tail; only its size matters
+			if !localPart {
+				continue // the oversize local route / a stale probe: another AS_PATH, only framing and size matter
 			}
 			p4, e4 := c08ParseASPath(ap.Val, 4)
 			p2, e2 := c08ParseASPath(ap.Val, 2)
@@ -1246,8 +1262,6 @@ func (cs *c08Case) checkEmitted(o *c08Open, res *c08Result, modes map[bgp.Family
 		}
 	}
 }
-
-func c08IsLocalRouteUpdate(u *c08Upd) bool { return u.attr(8) == nil }
 
 func c08Trunc(b []byte) []byte {
 	if len(b) > 200 {
